@@ -34,10 +34,10 @@ EXTENDS Integers, Sequences, FiniteSets, TLC
 CONSTANTS Sess,       \* session names
           Reqs,       \* request names; request r carries the same JSON-RPC id in every session
           Gets,       \* names available for GET exchanges
-          Prime,      \* [Sess -> BOOLEAN]: negotiated version >= 2025-11-25
-          Store,      \* an EventStore is configured
-          Json,       \* StreamableHTTPOptions.JSONResponse
-          Stateless,  \* StreamableHTTPOptions.Stateless (a "session" is then one POST's ephemeral session)
+          Cfgs,       \* the handler configurations explored (the configuration is chosen initially and never
+                      \* changes): [store: an EventStore is configured, json: StreamableHTTPOptions.JSONResponse,
+                      \* stateless: StreamableHTTPOptions.Stateless (a "session" is then one POST's ephemeral
+                      \* session), prime: [Sess -> BOOLEAN] negotiated version >= 2025-11-25]
           MaxEmit,    \* notifications per handler
           MaxSreq,    \* server->client requests per handler
           MaxSa,      \* notifications outside any request, per session
@@ -50,7 +50,8 @@ Posts == {PX(s, r) : s \in Sess, r \in Reqs}
 Exch == Posts \cup Gets
 WName(s, o) == "w." \o s \o "." \o o
 
-VARIABLES alive,   \* [Sess -> BOOLEAN]            ~c.isDone
+VARIABLES cfg,     \* the configuration (constant along a behaviour)
+          alive,   \* [Sess -> BOOLEAN]            ~c.isDone
           str,     \* [Sess -> [Streams -> stream]] the stream objects (ex: present in c.streams)
           tmp,     \* [Sess -> [Streams -> Exch \cup {None}]] temporary entry of a finished stream (its w)
           rs,      \* [Sess -> SUBSET Reqs]        keys of c.requestStreams
@@ -65,7 +66,12 @@ VARIABLES alive,   \* [Sess -> BOOLEAN]            ~c.isDone
           issued,  \* [Sess -> [Streams -> SUBSET Int]] event indices handed to the client so far
           okEnd    \* [Exch -> BOOLEAN] ghost: when the server ended the exchange the client had everything
 
-vars == <<alive, str, tmp, rs, log, lock, tlock, x, recv, h, wr, nsa, issued, okEnd>>
+vars == <<cfg, alive, str, tmp, rs, log, lock, tlock, x, recv, h, wr, nsa, issued, okEnd>>
+
+Store == cfg.store
+Json == cfg.json
+Stateless == cfg.stateless
+Prime == cfg.prime
 
 NoStream == [ex |-> FALSE, reqs |-> {}, w |-> None, open |-> FALSE, lastIdx |-> -1, json |-> FALSE, pend |-> <<>>]
 NoExch == [pc |-> "idle", s |-> None, st |-> None, from |-> -1, cut |-> FALSE, status |-> 0, obj |-> None, held |-> FALSE]
@@ -78,6 +84,7 @@ GateChoice == IF Gates /\ Store THEN BOOLEAN ELSE {FALSE}
 IsSse(e) == x[e].st = "sa" \/ ~Json
 
 Init ==
+  /\ cfg \in Cfgs
   /\ alive = [s \in Sess |-> TRUE]
   /\ str = [s \in Sess |-> [t \in Streams |-> IF t = "sa" THEN [NoStream EXCEPT !.ex = TRUE] ELSE NoStream]]
   /\ tmp = [s \in Sess |-> [t \in Streams |-> None]]
@@ -108,7 +115,7 @@ Post(s, r) ==
   /\ issued' = IF pr THEN [issued EXCEPT ![s][r] = {0}] ELSE issued
   /\ x' = [x EXCEPT ![e] = [NoExch EXCEPT !.pc = "hang", !.s = s, !.st = r, !.status = 200, !.obj = "real"]]
   /\ h' = [h EXCEPT ![s][r].pc = "run"]
-  /\ UNCHANGED <<alive, tmp, lock, tlock, wr, nsa, okEnd>>
+  /\ UNCHANGED <<cfg, alive, tmp, lock, tlock, wr, nsa, okEnd>>
 
 \* the handler of (s, r) sends a request-scoped notification (blocks until Write returns)
 HEmit(s, r, g) ==
@@ -116,29 +123,29 @@ HEmit(s, r, g) ==
   /\ wr' = [wr EXCEPT ![s][r] = [NoWrite EXCEPT !.pc = "route", !.held = g,
                                                 !.pl = [s |-> s, o |-> r, k |-> "notif", n |-> h[s][r].n + 1]]]
   /\ h' = [h EXCEPT ![s][r].pc = "busy", ![s][r].n = @ + 1]
-  /\ UNCHANGED <<alive, str, tmp, rs, log, lock, tlock, x, recv, nsa, issued, okEnd>>
+  /\ UNCHANGED <<cfg, alive, str, tmp, rs, log, lock, tlock, x, recv, nsa, issued, okEnd>>
 
 \* the handler issues a server->client request and waits for the client's answer
-HSreq(s, r) ==
-  /\ h[s][r].pc = "run" /\ h[s][r].q < MaxSreq /\ wr[s][r].pc = "idle"
-  /\ wr' = [wr EXCEPT ![s][r] = [NoWrite EXCEPT !.pc = "route",
+HSreq(s, r, g) ==
+  /\ h[s][r].pc = "run" /\ h[s][r].q < MaxSreq /\ wr[s][r].pc = "idle" /\ g \in GateChoice
+  /\ wr' = [wr EXCEPT ![s][r] = [NoWrite EXCEPT !.pc = "route", !.held = g,
                                                 !.pl = [s |-> s, o |-> r, k |-> "sreq", n |-> h[s][r].q + 1]]]
   /\ h' = [h EXCEPT ![s][r].pc = "busyq", ![s][r].q = @ + 1]
-  /\ UNCHANGED <<alive, str, tmp, rs, log, lock, tlock, x, recv, nsa, issued, okEnd>>
+  /\ UNCHANGED <<cfg, alive, str, tmp, rs, log, lock, tlock, x, recv, nsa, issued, okEnd>>
 
 \* the client answers (POST of a response: 202, no stream); only a request it has seen
 Ans(s, r) ==
   /\ h[s][r].pc = "wait" /\ alive[s]
   /\ \E e \in Exch : \E j \in 1..Len(recv[e]) : recv[e][j].pl = [s |-> s, o |-> r, k |-> "sreq", n |-> h[s][r].q]
   /\ h' = [h EXCEPT ![s][r].pc = "run"]
-  /\ UNCHANGED <<alive, str, tmp, rs, log, lock, tlock, x, recv, wr, nsa, issued, okEnd>>
+  /\ UNCHANGED <<cfg, alive, str, tmp, rs, log, lock, tlock, x, recv, wr, nsa, issued, okEnd>>
 
 \* the handler returns: the response is written
-HRet(s, r) ==
-  /\ h[s][r].pc = "run" /\ wr[s][r].pc = "idle"
-  /\ wr' = [wr EXCEPT ![s][r] = [NoWrite EXCEPT !.pc = "route", !.resp = TRUE, !.pl = RespPl(s, r)]]
+HRet(s, r, g) ==
+  /\ h[s][r].pc = "run" /\ wr[s][r].pc = "idle" /\ g \in GateChoice
+  /\ wr' = [wr EXCEPT ![s][r] = [NoWrite EXCEPT !.pc = "route", !.held = g, !.resp = TRUE, !.pl = RespPl(s, r)]]
   /\ h' = [h EXCEPT ![s][r].pc = "ret"]
-  /\ UNCHANGED <<alive, str, tmp, rs, log, lock, tlock, x, recv, nsa, issued, okEnd>>
+  /\ UNCHANGED <<cfg, alive, str, tmp, rs, log, lock, tlock, x, recv, nsa, issued, okEnd>>
 
 \* a notification outside any request (detached context)
 Sa(s, g) ==
@@ -146,7 +153,7 @@ Sa(s, g) ==
   /\ wr' = [wr EXCEPT ![s]["sa"] = [NoWrite EXCEPT !.pc = "route", !.held = g,
                                                    !.pl = [s |-> s, o |-> "sa", k |-> "notif", n |-> nsa[s] + 1]]]
   /\ nsa' = [nsa EXCEPT ![s] = @ + 1]
-  /\ UNCHANGED <<alive, str, tmp, rs, log, lock, tlock, x, recv, h, issued, okEnd>>
+  /\ UNCHANGED <<cfg, alive, str, tmp, rs, log, lock, tlock, x, recv, h, issued, okEnd>>
 
 \* the write of origin o has returned to its caller
 HandlerAfter(hh, s, o, ok) ==
@@ -168,14 +175,14 @@ WRoute(s, o) ==
   /\ IF refused \/ tgt = None \/ ~alive[s]
      THEN wr' = [wr EXCEPT ![s][o] = NoWrite] /\ h' = HandlerAfter(h, s, o, FALSE)
      ELSE wr' = [wr EXCEPT ![s][o].pc = "lock", ![s][o].tgt = tgt] /\ h' = h
-  /\ UNCHANGED <<alive, str, tmp, log, lock, tlock, x, recv, nsa, issued, okEnd>>
+  /\ UNCHANGED <<cfg, alive, str, tmp, log, lock, tlock, x, recv, nsa, issued, okEnd>>
 
 \* stream.mu.Lock()
 WLock(s, o) ==
   /\ wr[s][o].pc = "lock" /\ lock[s][wr[s][o].tgt] = None
   /\ lock' = [lock EXCEPT ![s][wr[s][o].tgt] = WName(s, o)]
   /\ wr' = [wr EXCEPT ![s][o].pc = "cs"]
-  /\ UNCHANGED <<alive, str, tmp, rs, log, tlock, x, recv, h, nsa, issued, okEnd>>
+  /\ UNCHANGED <<cfg, alive, str, tmp, rs, log, tlock, x, recv, h, nsa, issued, okEnd>>
 
 \* Write, second critical section (stream.mu): store, then deliver
 WCS(s, o) ==
@@ -205,7 +212,7 @@ WCS(s, o) ==
   /\ lock' = [lock EXCEPT ![s][t] = None]
   /\ wr' = [wr EXCEPT ![s][o] = NoWrite]
   /\ h' = HandlerAfter(h, s, o, ok)
-  /\ UNCHANGED <<alive, tmp, rs, tlock, x, nsa, okEnd>>
+  /\ UNCHANGED <<cfg, alive, tmp, rs, tlock, x, nsa, okEnd>>
 
 -----------------------------------------------------------------------------
 \* GET.  i = -1: no Last-Event-ID (standalone stream only); otherwise an id issued before.
@@ -215,7 +222,7 @@ Get(g, s, t, i, hg) ==
   /\ x' = [x EXCEPT ![g] = IF alive[s]
                            THEN [NoExch EXCEPT !.pc = "lookup", !.s = s, !.st = t, !.from = i, !.held = hg]
                            ELSE [NoExch EXCEPT !.pc = "done", !.s = s, !.st = t, !.from = i, !.status = 404]]
-  /\ UNCHANGED <<alive, str, tmp, rs, log, lock, tlock, recv, h, wr, nsa, issued, okEnd>>
+  /\ UNCHANGED <<cfg, alive, str, tmp, rs, log, lock, tlock, recv, h, wr, nsa, issued, okEnd>>
 
 \* acquireStream, under c.mu
 AcqLookup(g) ==
@@ -224,7 +231,7 @@ AcqLookup(g) ==
   /\ IF str[s][t].ex THEN x' = [x EXCEPT ![g].pc = "lock", ![g].obj = "real"] /\ tmp' = tmp
      ELSE IF tmp[s][t] # None THEN x' = [x EXCEPT ![g].pc = "lock", ![g].obj = "tmpo"] /\ tmp' = tmp
      ELSE x' = [x EXCEPT ![g].pc = "lock", ![g].obj = "tmp"] /\ tmp' = [tmp EXCEPT ![s][t] = g]
-  /\ UNCHANGED <<alive, str, rs, log, lock, tlock, recv, h, wr, nsa, issued, okEnd>>
+  /\ UNCHANGED <<cfg, alive, str, rs, log, lock, tlock, recv, h, wr, nsa, issued, okEnd>>
 
 AcqLock(g) ==
   LET s == x[g].s t == x[g].st IN
@@ -233,7 +240,7 @@ AcqLock(g) ==
      THEN lock[s][t] = None /\ lock' = [lock EXCEPT ![s][t] = g] /\ tlock' = tlock
      ELSE tlock[s][t] = None /\ tlock' = [tlock EXCEPT ![s][t] = g] /\ lock' = lock
   /\ x' = [x EXCEPT ![g].pc = "cs"]
-  /\ UNCHANGED <<alive, str, tmp, rs, log, recv, h, wr, nsa, issued, okEnd>>
+  /\ UNCHANGED <<cfg, alive, str, tmp, rs, log, recv, h, wr, nsa, issued, okEnd>>
 
 \* acquireStream, under stream.mu throughout: conflict check, After, replay, re-attach
 AcqCS(g) ==
@@ -251,7 +258,7 @@ AcqCS(g) ==
   /\ unlock
   /\ IF conflict
      THEN /\ x' = [x EXCEPT ![g].pc = "done", ![g].status = 409, ![g].held = FALSE]
-          /\ UNCHANGED <<str, tmp, recv, issued, okEnd>>
+          /\ UNCHANGED <<cfg, str, tmp, recv, issued, okEnd>>
      ELSE /\ recv' = IF x[g].cut THEN recv ELSE [recv EXCEPT ![g] = evs]
           /\ issued' = IF x[g].cut THEN issued ELSE [issued EXCEPT ![s][t] = @ \cup {from + j : j \in 1..Len(rep)}]
           /\ tmp' = IF obj = "tmp" THEN [tmp EXCEPT ![s][t] = None] ELSE tmp
@@ -262,13 +269,13 @@ AcqCS(g) ==
              ELSE /\ x' = [x EXCEPT ![g].pc = "hang", ![g].status = 200]
                   /\ str' = [str EXCEPT ![s][t].w = g, ![s][t].open = TRUE, ![s][t].lastIdx = from + Len(rep)]
                   /\ okEnd' = okEnd
-  /\ UNCHANGED <<alive, rs, log, h, wr, nsa>>
+  /\ UNCHANGED <<cfg, alive, rs, log, h, wr, nsa>>
 
 \* the client disconnects: the request context of that exchange is cancelled
 Cut(e) ==
-  /\ x[e].pc \in {"lock", "cs", "hang", "rel"} /\ ~x[e].cut
+  /\ x[e].pc \in {"lock", "cs", "hang", "rel", "closing"} /\ ~x[e].cut
   /\ x' = [x EXCEPT ![e].cut = TRUE]
-  /\ UNCHANGED <<alive, str, tmp, rs, log, lock, tlock, recv, h, wr, nsa, issued, okEnd>>
+  /\ UNCHANGED <<cfg, alive, str, tmp, rs, log, lock, tlock, recv, h, wr, nsa, issued, okEnd>>
 
 \* hangResponse returns: context cancelled, stream complete (done closed), or session closed
 Wake(e) ==
@@ -280,15 +287,23 @@ Wake(e) ==
   /\ x' = [x EXCEPT ![e].pc = "rel"]
   /\ okEnd' = [okEnd EXCEPT ![e] = x[e].cut \/ ~alive[s] \/ ~Store \/ ~IsSse(e)
                                    \/ x[e].from + Len(recv[e]) + 1 = Len(log[s][t])]
-  /\ UNCHANGED <<alive, str, tmp, rs, log, lock, tlock, recv, h, wr, nsa, issued>>
+  /\ UNCHANGED <<cfg, alive, str, tmp, rs, log, lock, tlock, recv, h, wr, nsa, issued>>
 
-\* stream.release(), under stream.mu
+\* stream.release(), under stream.mu.  A stateless handler then closes the POST's ephemeral session,
+\* which waits for the call's handler (graceful close) before ServeHTTP returns.
 Rel(e) ==
-  LET s == x[e].s t == x[e].st IN
+  LET s == x[e].s t == x[e].st
+      waits == Stateless /\ e \in Posts /\ h[s][t].pc # "done"
+  IN
   /\ x[e].pc = "rel" /\ lock[s][t] = None
   /\ str' = [str EXCEPT ![s][t].w = None, ![s][t].open = FALSE]
+  /\ x' = [x EXCEPT ![e].pc = IF waits THEN "closing" ELSE "done"]
+  /\ UNCHANGED <<cfg, alive, tmp, rs, log, lock, tlock, recv, h, wr, nsa, issued, okEnd>>
+
+SessClosed(e) ==
+  /\ x[e].pc = "closing" /\ h[x[e].s][x[e].st].pc = "done"
   /\ x' = [x EXCEPT ![e].pc = "done"]
-  /\ UNCHANGED <<alive, tmp, rs, log, lock, tlock, recv, h, wr, nsa, issued, okEnd>>
+  /\ UNCHANGED <<cfg, alive, str, tmp, rs, log, lock, tlock, recv, h, wr, nsa, issued, okEnd>>
 
 \* DELETE: the session closes once nothing is in flight (graceful close)
 Del(s) ==
@@ -296,20 +311,20 @@ Del(s) ==
   /\ \A r \in Reqs : h[s][r].pc \in {"none", "done"}
   /\ \A o \in Streams : wr[s][o].pc = "idle"
   /\ alive' = [alive EXCEPT ![s] = FALSE]
-  /\ UNCHANGED <<str, tmp, rs, log, lock, tlock, x, recv, h, wr, nsa, issued, okEnd>>
+  /\ UNCHANGED <<cfg, str, tmp, rs, log, lock, tlock, x, recv, h, wr, nsa, issued, okEnd>>
 
 \* the environment opens every gate it holds
 GateOpen ==
   /\ (\E s \in Sess, o \in Streams : wr[s][o].held) \/ (\E g \in Gets : x[g].held)
   /\ wr' = [s \in Sess |-> [o \in Streams |-> [wr[s][o] EXCEPT !.held = FALSE]]]
   /\ x' = [e \in Exch |-> [x[e] EXCEPT !.held = FALSE]]
-  /\ UNCHANGED <<alive, str, tmp, rs, log, lock, tlock, recv, h, nsa, issued, okEnd>>
+  /\ UNCHANGED <<cfg, alive, str, tmp, rs, log, lock, tlock, recv, h, nsa, issued, okEnd>>
 
 -----------------------------------------------------------------------------
 SdkNext ==
   \/ \E s \in Sess, o \in Streams : WRoute(s, o) \/ WLock(s, o) \/ WCS(s, o)
   \/ \E g \in Gets : AcqLookup(g) \/ AcqLock(g) \/ AcqCS(g)
-  \/ \E e \in Exch : Wake(e) \/ Rel(e)
+  \/ \E e \in Exch : Wake(e) \/ Rel(e) \/ SessClosed(e)
 \* ENABLED SdkNext, written out (cheaper for TLC; StreamSrvMC checks the equivalence)
 SdkEnabled ==
   \/ \E s \in Sess, o \in Streams :
@@ -323,8 +338,9 @@ SdkEnabled ==
   \/ \E e \in Exch :
         \/ x[e].pc = "hang" /\ (x[e].cut \/ ~alive[x[e].s] \/ (str[x[e].s][x[e].st].w = e /\ ~str[x[e].s][x[e].st].open))
         \/ x[e].pc = "rel" /\ lock[x[e].s][x[e].st] = None
+        \/ x[e].pc = "closing" /\ h[x[e].s][x[e].st].pc = "done"
 EnvNext ==
-  \/ \E s \in Sess, r \in Reqs : Post(s, r) \/ (\E g \in BOOLEAN : HEmit(s, r, g)) \/ HSreq(s, r) \/ Ans(s, r) \/ HRet(s, r)
+  \/ \E s \in Sess, r \in Reqs : Post(s, r) \/ Ans(s, r) \/ (\E g \in BOOLEAN : HEmit(s, r, g) \/ HSreq(s, r, g) \/ HRet(s, r, g))
   \/ \E s \in Sess, g \in BOOLEAN : Sa(s, g)
   \/ \E g \in Gets, s \in Sess, t \in Streams, i \in -1..(MaxEmit + MaxSreq + MaxSa + 2), hg \in BOOLEAN : Get(g, s, t, i, hg)
   \/ \E e \in Exch : Cut(e)
